@@ -285,6 +285,7 @@ func dumpDiff(a, b map[string]string) []string {
 type TwinCase struct {
 	Index   int          `json:"index"`
 	Genesis string       `json:"genesis"`
+	HName   string       `json:"hname,omitempty"` // name of the directed history (decides the variant set)
 	Variant string       `json:"variant"`
 	Blocks  int          `json:"blocks"`
 	Txs     int          `json:"txs"`
@@ -353,11 +354,14 @@ func twinMain(args []string) int {
 		must(err)
 		var rp struct {
 			Genesis string       `json:"genesis"`
+			HName   string       `json:"hname"`
 			VSeed   int64        `json:"vseed"`
 			History []HBlockJSON `json:"history"`
 		}
 		must(json.Unmarshal(bz, &rp))
-		jobs = append(jobs, job{rp.Genesis, historyFromJSON(rp.History), rp.VSeed})
+		hh := historyFromJSON(rp.History)
+		hh.Name = rp.HName
+		jobs = append(jobs, job{rp.Genesis, hh, rp.VSeed})
 	} else {
 		gens := []string{"default", "default", "mature", "pending"}
 		if *withScen {
@@ -393,7 +397,7 @@ func twinMain(args []string) int {
 			rep.Comparisons++
 			rep.Restarts += tr.Restarts
 			d := compareTranscripts(base, tr)
-			tc := TwinCase{Index: i, Genesis: j.genName, Variant: v.Name, Blocks: len(j.h.Blocks), Txs: ntx, Failed: nfail}
+			tc := TwinCase{Index: i, Genesis: j.genName, HName: j.h.Name, Variant: v.Name, Blocks: len(j.h.Blocks), Txs: ntx, Failed: nfail}
 			if d != nil {
 				rep.Divergent++
 				// state diff at the first divergent block, for the site signature
@@ -469,6 +473,22 @@ func buildVariants(mode string, w *World, h *History, base *Transcript, r *rand.
 				ca[[2]int{bi, pos}] = true
 			}
 			vs = append(vs, &Variant{Name: fmt.Sprintf("crash-%d", k), CrashAt: ca})
+		}
+		// directed histories only: a crash in EVERY block, always between EndBlock and Commit (what the
+		// block hooks wrote outside the chain state — job store, indexes — is then ahead of the commit
+		// when the block is replayed), and one cycling through the four kinds of call boundary
+		if h.Name != "" {
+			every, cyc := map[[2]int]bool{}, map[[2]int]bool{}
+			for bi := range h.Blocks {
+				every[[2]int{bi, 1000}] = true
+				pos := []int{1001, 0, 1, 1000}[bi%4]
+				if pos == 1 && len(h.Blocks[bi].Txs) == 0 {
+					pos = 0
+				}
+				cyc[[2]int{bi, pos}] = true
+			}
+			every[[2]int{0, 1001}] = true // and a restart right after the first commit: start-up flags are read again
+			vs = append(vs, &Variant{Name: "crash-every-endblock", CrashAt: every}, &Variant{Name: "crash-cycling", CrashAt: cyc})
 		}
 		return vs
 	case "c01":
